@@ -48,7 +48,7 @@ REAL_VS_STUB = {
 }
 TIERS = {
     "quick": {"runs": 9000, "budget_s": 60, "chunk": 25, "det_pairs": 48, "fresh": 4},
-    "thorough": {"runs": 60000, "budget_s": 900, "chunk": 30, "det_pairs": 384, "fresh": 24},
+    "thorough": {"runs": 60000, "budget_s": 900, "chunk_timeout": 900, "chunk": 30, "det_pairs": 384, "fresh": 24},
 }
 
 
